@@ -32,6 +32,8 @@ func main() {
 		blockMain(os.Args[2:])
 	case "blockstress":
 		blockstressMain(os.Args[2:])
+	case "concstress":
+		concstressMain(os.Args[2:])
 	case "gcstress":
 		gcstressMain(os.Args[2:])
 	default:
